@@ -4,7 +4,10 @@ package main
 // per-call state from its inputs, or decodes a tensor while the model is running. The first dimension of the input is the
 // (dynamic) batch axis.
 
-import "math/rand"
+import (
+	"fmt"
+	"math/rand"
+)
 
 type synthModel struct {
 	name string
@@ -39,7 +42,17 @@ func synthModels(r *rand.Rand) []synthModel {
 	for i, v := range big {
 		bigT.Data[i] = IntElem(int64(v))
 	}
+	// a model with many initializers (per-Model tables sized by the number of weights): y = x + w1 + ... + w70
+	many := mModel{Inputs: []mInput{dynInput("x", 3)}, Outputs: []string{"s70"}}
+	prev := "x"
+	for i := 1; i <= 70; i++ {
+		w, o := fmt.Sprintf("mw%d", i), fmt.Sprintf("s%d", i)
+		many.Inits = append(many.Inits, mInit{w, fTensor(r, []int{3}, -2, 2)})
+		many.Nodes = append(many.Nodes, mNode{Op: "Add", Attrs: []Attr{}, Ins: []string{prev, w}, Outs: []string{o}})
+		prev = o
+	}
 	return []synthModel{
+		{"many_weights", many},
 		{"two_dilated_convs", mModel{
 			Nodes: []mNode{
 				{Op: "Conv", Attrs: []Attr{aIs("dilations", []int{2, 2}), aIs("pads", []int{2, 2, 2, 2})}, Ins: []string{"x", "k1", "b1"}, Outs: []string{"t"}},
